@@ -113,12 +113,14 @@ def r10_3(ctx, R, ms):
     n = 0
     for m in ms:
         b, fl = m.b, m.fl
-        if not m.branches:
+        paths = m.all_event_paths(3)
+        # a try-adapter: the upstream poll goes through `?`, or its Some(Err(_)) outcome is matched explicitly
+        if not m.branches and not any(e[0] == "U" and e[1] == "Err" for _, ev in paths for e in ev):
             continue
         n += 1
         bad = []
         k = 0
-        for path, ev in m.all_event_paths(3):
+        for path, ev in paths:
             feas, st = simulate(ev)
             if not feas:
                 continue
@@ -136,8 +138,21 @@ def r10_3(ctx, R, ms):
                 src = e[2][0]
                 ok = src[0] == "proj" and src[2][:2] == ("@Break", ".0") and src[1][0] == "call" and src[1][3] in m.branches
                 ctx.ob("R10.3", b, "returned-error-is-the-upstream-residual", ok, b.loc(rb), expr_str(src))
+            elif _explicit_err(e) is not None:
+                src = _explicit_err(e)
+                ok = src[0] == "proj" and src[2][-2:] == ("@Err", ".0") and src[1][0] == "call" and src[1][3] in m.up_sites
+                ctx.ob("R10.3", b, "returned-error-is-the-upstream-residual", ok, b.loc(rb), expr_str(src))
         # inner outputs (Result) are forwarded unchanged: covered by RET(Forward)/RET(Some) provenance in R10.4
     ctx.floor("R10.3", "try-adapters", n, 2)
+
+
+def _explicit_err(e):
+    """payload of Poll::Ready(Some(Err(payload))) or None"""
+    if e[0] == "agg" and e[1].endswith("Poll::Ready") and e[2] and e[2][0][0] == "agg" and e[2][0][1].endswith("Option::Some"):
+        v = e[2][0][2][0]
+        if v[0] == "agg" and v[1].endswith("Result::Err") and v[2]:
+            return v[2][0]
+    return None
 
 
 def r10_4(ctx, R, ms):
@@ -165,6 +180,8 @@ def r10_4(ctx, R, ms):
         for rb, e in returned_exprs(ctx, b):
             if e[0] == "agg" and e[1].endswith("Poll::Ready") and e[2][0][0] == "agg" and e[2][0][1].endswith("Option::Some"):
                 v = e[2][0][2][0]
+                if _explicit_err(e) is not None and any(c[3] in m.up_sites for c in expr_calls(v)):
+                    continue    # an upstream error surfaced by an explicit arm: R10.3
                 ok = any(c[3] in m.inner for c in expr_calls(v)) and v[0] == "proj"
                 ctx.ob("R10.4", b, "yielded-value-is-inner-output", ok, b.loc(rb), expr_str(v))
 
